@@ -10,7 +10,7 @@ ID = 'C07'
 PROFILES = ['dev']
 ALPHA = [0x61, 0x62, 0xE9]          # a, b, é  (overlap + a multi-byte character)
 BOUNDS = {'split': 'subject string <= 4 (quick 3) characters over {a, b, é}, delimiter absent / string <= 2 characters / any non-string kind',
-          'join': 'array of <= 3 lazily symbolic elements (strings <= 2 characters) + <= 1 dictionary entry, delimiter absent / string <= 2 / non-string',
+          'join': 'array of <= 2 lazily symbolic elements + <= 1 dictionary entry (quick: elements null or a string <= 1 character; thorough: any scalar kind, strings <= 2 characters), delimiter absent / string <= 2 / non-string',
           'cast': 'subject of any kind (numbers: all doubles, strings: all strings, opaque), parameter absent or any value (all doubles as radix)',
           'rounding': 'all doubles, all kinds'}
 OUTSIDE = ['the into-destination protocol of the statements (mutation_helper / visit_rounding; interpreter level)', 'longer strings / arrays',
@@ -148,7 +148,9 @@ def h_split(vm, mir, ka):
 
 def h_join(vm, mir, ka):
     if ka == 5:
-        a = sym_val(vm, 'a', arr_max=3 if getattr(vm, 'tier', 'quick') == 'thorough' else 2, depth=1, dict_max=1, kinds=[5], str_factory=lambda vm_, nm: sym_bstr(vm_, nm, 2))
+        thorough = getattr(vm, 'tier', 'quick') == 'thorough'
+        a = sym_val(vm, 'a', arr_max=2, depth=1, dict_max=1, kinds=[5], str_factory=lambda vm_, nm: sym_bstr(vm_, nm, 2 if thorough else 1),
+                    elem_kinds=None if thorough else [1, 4])
     else: a = mk_bounded(vm, 'a', 2, kinds=[ka])
     popt, param = opt_param(vm, 'd', lambda vm_, nm: mk_bounded(vm_, nm, 2))
     ck = Checker(vm, describe_op(vm, 'join', a, param)); vm.describe = ck.d
